@@ -163,8 +163,6 @@ def rule_mux(ctx: Ctx) -> None:
                   key_text="popped events are yielded")
     # the multiplexer tells "an event" from "nothing" by truth value (`if event := source.pop()`, `if evnt and ...`): every Event class must
     # be always-true, i.e. define neither __bool__ nor __len__ (an 'empty' event would be dropped, or would wedge its source's slot)
-    truthy_tests = [n for f_ in (pop, ctx.repo.funcs.get(f"{MX}._prefetch") or pk) for n in ast.walk(f_.node)
-                    if isinstance(n, (ast.If, ast.IfExp, ast.comprehension)) or isinstance(n, ast.NamedExpr)]
     base_ev = "basana.core.event.Event"
     offenders = []
     for cq in sorted(ctx.facts.subclasses(base_ev)):
